@@ -310,9 +310,8 @@ class Interp:
                 if len(outs) != 1 or isinstance(outs[0][1], Raise):
                     raise EngineLimit('module constant %s.%s' % (m.name, name))
                 v = outs[0][1]
-                if isinstance(v, Ref):
-                    # module-level mutable constant: keep a frozen python-side copy
-                    v = self.freeze(outs[0][0], v)
+                # module-level constant: keep a frozen (heap independent) copy
+                v = self.freeze(outs[0][0], v)
                 if isinstance(v, SRegex):
                     v.name = m.name + '.' + name
                 m.const_cache[name] = v
@@ -346,6 +345,8 @@ class Interp:
             if isinstance(o, HList):
                 return STuple([self.freeze(st, x) for x in o.items])
             raise EngineLimit('module-level mutable %r' % o)
+        if isinstance(v, STuple):
+            return STuple([self.freeze(st, x) for x in v.items])
         return v
 
     def builtin(self, name):
@@ -1347,6 +1348,9 @@ class Interp:
             if isinstance(o, HObj) and o.cls.startswith('opaque:'):
                 yield st, SFunc('opaque', o.cls[7:] + '.' + attr, selfv=base)
                 return
+            if isinstance(o, HObj) and o.cls.startswith('ext.') and attr not in o.fields:
+                yield st, SFunc('extmethod', o.cls + '.' + attr, selfv=base)
+                return
             if isinstance(o, HObj):
                 if attr in o.fields:
                     v = o.fields[attr]
@@ -1456,6 +1460,14 @@ class Interp:
                 return
             if f.kind == 'opaque':
                 yield from self.call_opaque(node, f, args, kwargs, st)
+                return
+            if f.kind == 'extmethod':
+                from . import contracts_rt as C
+                cls, meth = f.name.rsplit('.', 1)
+                h = C.EXT_METHODS.get((cls, meth))
+                if h is None:
+                    raise EngineLimit('external method %s' % f.name)
+                yield from h(self, node, f.selfv, args, kwargs, st)
                 return
             if f.kind in ('repo', 'spec', 'method'):
                 if f.kind == 'method':
@@ -2290,34 +2302,28 @@ class Interp:
         yield from self.unroll_while(node, st, 0)
 
     def unroll_while(self, node, st, k):
-        if k > 64:
+        """no invariant given: unroll, splitting on a symbolic guard; the path condition must
+        bound the number of iterations (e.g. a list of known length), else 'outside reach'"""
+        if k > 40:
             raise EngineLimit('while loop needs an invariant: %s' % stmt_text(node))
         for st1, c in self.ev(node.test, st):
             if isinstance(c, Raise):
                 yield st1, ('raise', c.exc)
                 continue
-            t = self.truth(st1, c)
-            if not isinstance(t, bool):
-                t = z3.simplify(t)
-                if z3.is_true(t):
-                    t = True
-                elif z3.is_false(t):
-                    t = False
-                else:
-                    raise EngineLimit('while loop needs an invariant: %s' % stmt_text(node))
-            if not t:
-                if node.orelse:
-                    yield from self.ex(node.orelse, st1)
-                else:
-                    yield st1, NORMAL
-                continue
-            for st2, sig in self.ex(node.body, st1):
-                if sig is NORMAL or sig[0] == 'continue':
-                    yield from self.unroll_while(node, st2, k + 1)
-                elif sig[0] == 'break':
-                    yield st2, NORMAL
-                else:
-                    yield st2, sig
+            for st1b, t in self.branch(st1, c):
+                if not t:
+                    if node.orelse:
+                        yield from self.ex(node.orelse, st1b)
+                    else:
+                        yield st1b, NORMAL
+                    continue
+                for st2, sig in self.ex(node.body, st1b):
+                    if sig is NORMAL or sig[0] == 'continue':
+                        yield from self.unroll_while(node, st2, k + 1)
+                    elif sig[0] == 'break':
+                        yield st2, NORMAL
+                    else:
+                        yield st2, sig
 
     def ex_For(self, node, st):
         for st1, it in self.ev(node.iter, st):
